@@ -81,7 +81,7 @@ func Param(name string, def int) int {
 // Symbolic reports whether the code runs under the symbolic executor.
 func Symbolic() bool { return false }
 
-func Byte(tag string) byte { return byte(next(tag, "b8")) }
+func Byte(tag string) byte   { return byte(next(tag, "b8")) }
 func Uint8(tag string) uint8 { return uint8(next(tag, "b8")) }
 func Bytes(tag string, n int) []byte {
 	out := make([]byte, n)
